@@ -78,6 +78,20 @@ SCOPES = {
             ("multi", _scope(Mode="dist", NGroups={1, 2}, Caps={1}, Socs={0, 3}, BatBnds={(-6, -2, 0, 4), (-4, 0, 3, 6), (-6, -3, 2, 6)},
                              InvBnds={(-4, -2, 0, 2), (-2, 0, 2, 4), (-4, -1, 1, 4)}, Shapes1={(1, 2), (2, 1), (2, 2)}, ShapesR=ONE,
                              Mags={1, 3, 4, 5, 7, 11}, Exps={1})),
+            # 3-4 groups on a finer SoC grid with exclusion bounds: a deficit larger than any single
+            # surplus is covered from several donors (partial-cover branch of the deficit loop)
+            ("cover3", _scope(Mode="dist", NGroups={3}, Caps={1}, Socs={1, 8}, SocLo=0, SocHi=9,
+                              BatBnds={(-6, -2, 2, 6), (-6, 0, 0, 6), (-6, -4, 4, 6)}, InvBnds={(-6, 0, 0, 6), (-6, -1, 1, 6)},
+                              Shapes1=ONE, ShapesR=ONE, Mags={1, 3, 5, 7, 9}, Exps={1})),
+            ("cover4", _scope(Mode="dist", NGroups={4}, Caps={1}, Socs={1, 3, 8}, SocLo=0, SocHi=9,
+                              BatBnds={(-6, -2, 2, 6), (-6, 0, 0, 6)}, InvBnds={(-6, 0, 0, 6)},
+                              Shapes1=ONE, ShapesR=ONE, Mags={1, 3, 5, 7, 9}, Exps={1})),
+        ],
+        "reject": [
+            # requests the advertised bounds do not admit, through the manager with adjust_power on/off
+            ("reject", _scope(Mode="reject", NGroups={1, 2}, Caps={1}, Socs={2}, BatBnds={(-6, -2, 0, 2), (-2, 0, 2, 6), (-6, 0, 3, 6), (-4, -3, 0, 4)},
+                              InvBnds=bnds({2, 4}, {0, 1, 2}), Shapes1={(1, 1), (1, 2)}, ShapesR=ONE,
+                              Mags=set(), Exps={1})),
         ],
         "bounds": [
             ("bounds", _scope(Mode="bounds", NGroups={1, 2}, Caps={1}, Socs={2}, BatBnds=QB,
@@ -108,6 +122,17 @@ SCOPES = {
             ("three", _scope(Mode="dist", NGroups={3}, Caps={1, 2}, Socs={1, 3}, BatBnds=bnds({2, 6}, {0, 2}),
                              InvBnds={(-6, 0, 0, 6), (-2, -2, 2, 4)}, Shapes1=ONE, ShapesR=ONE,
                              Mags={3, 8, 19}, Exps={1})),
+            ("cover3", _scope(Mode="dist", NGroups={3}, Caps={1}, Socs={1, 3, 8}, SocLo=0, SocHi=9,
+                              BatBnds={(-6, -2, 2, 6), (-6, 0, 0, 6), (-6, -4, 4, 6)}, InvBnds={(-6, 0, 0, 6), (-6, -1, 1, 6)},
+                              Shapes1=ONE, ShapesR=ONE, Mags={1, 3, 5, 7, 9, 11}, Exps={1})),
+            ("cover4", _scope(Mode="dist", NGroups={4}, Caps={1}, Socs={1, 3, 8}, SocLo=0, SocHi=9,
+                              BatBnds={(-6, -2, 2, 6), (-6, 0, 0, 6), (-6, -4, 4, 6)}, InvBnds={(-6, 0, 0, 6)},
+                              Shapes1=ONE, ShapesR=ONE, Mags={1, 3, 5, 7, 9, 11, 13}, Exps={1, 2})),
+        ],
+        "reject": [
+            ("reject", _scope(Mode="reject", NGroups={1, 2}, Caps={1}, Socs={2}, BatBnds=QB,
+                              InvBnds=bnds({2, 4}, {0, 1, 2}), Shapes1={(1, 1), (1, 2), (2, 1), (2, 2)}, ShapesR={(1, 1), (1, 2)},
+                              Mags=set(), Exps={1})),
         ],
         "bounds": [
             ("bounds", _scope(Mode="bounds", NGroups={1, 2}, Caps={1}, Socs={2}, BatBnds=bnds({2, 4, 6}, {0, 2, 3}),
@@ -350,6 +375,22 @@ class Rig:
         rec["m"] = m
         return rec
 
+    # -- C02: requests the advertised bounds do not admit ------------------------------
+    def run_reject(self, case: dict) -> dict:
+        groups, p = case["g"], case["p"]
+        self.build(groups)
+        watts = float(p * UNITW)
+        runs = []
+        for adjust in (True, False):
+            self.api.calls.clear()
+            self.sender.items.clear()
+            req = self.Request(power=self.Power.from_watts(watts), component_ids=self.all_bats, adjust_power=adjust)
+            self.loop.run_until_complete(self.mgr.distribute_power(req))
+            if len(self.sender.items) != 1:
+                raise MachineryError(f"BatteryManager sent {len(self.sender.items)} results for one request")
+            runs.append(dict(adj=adjust, kind=type(self.sender.items[0]).__name__, calls=self.by_group(self.api.calls)))
+        return dict(id=case["id"], kind="reject", g=groups, p=p, e=case["e"], r=runs)
+
     # -- C17 ------------------------------------------------------------------------
     def run_bounds(self, case: dict) -> dict:
         groups = case["g"]
@@ -427,9 +468,12 @@ def _worker(chunk, out_path):
     meta: dict = {}
     with open(out_path, "w") as f:
         for cid, kind, name, c in _iter_cases(chunk[0], chunk[-1] + 1):
-            mt = meta.setdefault(name, dict(n=0, az=0, devs={}))
+            mt = meta.setdefault(name, dict(n=0, az=0, devs={}, partial=0, multi=0))
             mt["n"] += 1
             mt["az"] += 1 if c.pop("az", False) else 0
+            npart = c.pop("np", 0) or 0
+            mt["partial"] += 1 if npart >= 1 else 0
+            mt["multi"] += 1 if npart >= 2 else 0
             for dn in c.pop("dev", []) or []:
                 mt["devs"][dn] = mt["devs"].get(dn, 0) + 1
             c.update(id=cid, kind=kind, st=name)
@@ -438,7 +482,7 @@ def _worker(chunk, out_path):
             if rig is None:
                 rig = rigs[shape] = Rig(shape)
             rig.activate()
-            rec = rig.run_dist(c) if kind == "dist" else rig.run_bounds(c)
+            rec = rig.run_dist(c) if kind == "dist" else rig.run_reject(c) if kind == "reject" else rig.run_bounds(c)
             rec["st"] = name
             f.write(json.dumps(rec, separators=(",", ":")) + "\n")
     Path(str(out_path) + ".meta").write_text(json.dumps(meta))
@@ -469,6 +513,8 @@ def _mc(rep: Report, prop: str, name: str, consts: dict, work: Path) -> None:
     inv = list(DESIGN_INV)
     if mode == "bounds":
         inv += CLAUSE_INV["C17"][:3]
+    elif mode == "reject":
+        inv += CLAUSE_INV["C17"][:3] + ["NonAdmittedInv"]
     elif prop == "C17":
         inv += CLAUSE_INV["C01"] + CLAUSE_INV["C02"] + CLAUSE_INV["C17"]
     else:  # C01 and C02 share the distribution stages; the domain sanity invariant of C17 comes along
@@ -476,7 +522,7 @@ def _mc(rep: Report, prop: str, name: str, consts: dict, work: Path) -> None:
     res = run_tlc("BatteryPower", d, constants=consts, invariants=inv, env={"OUT_FILE": str(cases_file)}, timeout=12000, heap="4g")
     rep.add_mc(name, res, _jsonable(consts), inv, mode="exhaustive")
     if not res.ok:
-        mine = [v for v in res.violated if v in CLAUSE_INV[prop] or v in DESIGN_INV or v in ("initial", "ASSUME", "AdmittedIsAcceptedInv")]
+        mine = [v for v in res.violated if v in CLAUSE_INV[prop] or v in DESIGN_INV or v in ("initial", "ASSUME", "AdmittedIsAcceptedInv", "NonAdmittedInv")]
         if mine:
             rep.fail(f"{prop}.MC.{'/'.join(res.violated)}", dict(stage=name, constants=_jsonable(consts)), res.counterexample[:3000])
             return
@@ -487,7 +533,7 @@ def _mc(rep: Report, prop: str, name: str, consts: dict, work: Path) -> None:
             n = sum(1 for _ in fh)
     if n == 0:
         raise MachineryError(f"stage {name}: TLC emitted no case")
-    _STAGEFILES.append((cases_file, n, "dist" if mode == "dist" else "bounds", name))
+    _STAGEFILES.append((cases_file, n, mode, name))
 
 
 def _run_val(rep: Report, prop: str, work: Path, consts: dict) -> None:
@@ -503,15 +549,18 @@ def _run_val(rep: Report, prop: str, work: Path, consts: dict) -> None:
     # Report ("dist"), which is only reachable through Install, Prepare, then either AllZero or
     # Reserve..Split; "az" says which branch the input took
     meta: dict = {}
+    all_taken: dict = {}
     for p in shards:
         for name, mt in json.loads(Path(str(p) + ".meta").read_text()).items():
-            acc = meta.setdefault(name, dict(n=0, az=0, devs={}))
+            acc = meta.setdefault(name, dict(n=0, az=0, devs={}, partial=0, multi=0))
             acc["n"] += mt["n"]
             acc["az"] += mt["az"]
+            acc["partial"] += mt.get("partial", 0)
+            acc["multi"] += mt.get("multi", 0)
             for k, v in mt["devs"].items():
                 acc["devs"][k] = acc["devs"].get(k, 0) + v
     for (path, n, kind, name), mcrec in zip(_STAGEFILES, [m for m in rep.mc if m["run"] in {s[3] for s in _STAGEFILES}]):
-        mt = meta.get(name, dict(n=0, az=0, devs={}))
+        mt = meta.get(name, dict(n=0, az=0, devs={}, partial=0, multi=0))
         if mt["n"] != n:
             raise MachineryError(f"stage {name}: {n} cases emitted, {mt['n']} replayed")
         if kind == "dist":
@@ -521,14 +570,20 @@ def _run_val(rep: Report, prop: str, work: Path, consts: dict) -> None:
             taken = dict(Install=n)
         mcrec["actions"] = taken
         for a, k in taken.items():
-            if not k:
-                raise MachineryError(f"vacuity: action {a} never taken in stage {name} ({taken})")
+            all_taken[a] = all_taken.get(a, 0) + k
         rep.extra.setdefault("stages", []).append(
-            dict(stage=name, inputs_enumerated=n, cases_replayed=mt["n"], model_inputs_with_deviation=mt["devs"], mc_wall_s=mcrec["wall_s"])
+            dict(stage=name, inputs_enumerated=n, cases_replayed=mt["n"], model_inputs_with_named_cause=mt["devs"],
+                 cover_partial_branch=mt["partial"], cover_multi_donor=mt["multi"], mc_wall_s=mcrec["wall_s"])
         )
+    for a, k in all_taken.items():  # every action of the specification taken in some stage of this run
+        if not k:
+            raise MachineryError(f"vacuity: action {a} never taken ({all_taken})")
     fails, done, st = validate_shards("BatteryPowerTrace", shards, d, constants=dict(consts, Mode="trace"), timeout=12000, heap="1500m")
     rep.validated += done
     rep.extra["exercised"] = _exercised(d, shards)
+    # inputs on which the deficit loop of the transcription took the partial-cover branch (once / from >= 2 donors)
+    rep.extra["exercised"]["cover_partial_branch"] = sum(mt["partial"] for mt in meta.values())
+    rep.extra["exercised"]["cover_multi_donor"] = sum(mt["multi"] for mt in meta.values())
     rep.extra["run_wall_s"] = run_s
     rep.extra["val_wall_s"] = st["wall_s"]
     # full records only for the first few failures of each (clause, deviations) class
@@ -566,6 +621,13 @@ def _run_val(rep: Report, prop: str, work: Path, consts: dict) -> None:
             if len(ds) < 5:
                 ds.append(dict(clause=cl, detail=v["detail"], deviations=v.get("deviations", [])))
             continue
+        if cl.startswith("OBS."):
+            obs = rep.extra.setdefault("observations", {})
+            obs[cl] = obs.get(cl, 0) + 1
+            osm = rep.extra.setdefault("observation_samples", [])
+            if len(osm) < 3:
+                osm.append(dict(clause=cl, detail=v["detail"]))
+            continue
         if not cl.startswith(prop + "."):
             continue
         r_ = byid.get(v["tid"])
@@ -577,8 +639,11 @@ def _run_val(rep: Report, prop: str, work: Path, consts: dict) -> None:
 
 # antecedents that must have been exercised at least once (vacuity guard), per property
 NEEDED = {
-    "C01": ["nonzero_setpoint", "remainder", "supply", "beyond_incl", "multi_inverter", "multi_battery", "manager"],
-    "C02": ["nonzero_setpoint", "noheadroom", "allnoheadroom", "at_excl", "at_incl", "multi_inverter", "multi_battery"],
+    "C01": ["nonzero_setpoint", "remainder", "supply", "beyond_incl", "multi_inverter", "multi_battery", "manager",
+            "cover_partial_branch", "cover_multi_donor"],
+    "C02": ["nonzero_setpoint", "noheadroom", "allnoheadroom", "at_excl", "at_incl", "multi_inverter", "multi_battery",
+            "cover_partial_branch", "cover_multi_donor", "not_advertised", "inside_enforced_zone", "beyond_incl_noadjust",
+            "rejected_runs"],
     "C17": ["probes", "in_advertised", "contains", "rejected", "excl_differs", "manager", "multi_inverter", "multi_battery"],
 }
 
@@ -597,7 +662,7 @@ def run(prop: str, tier: str) -> int:
         "real _get_components_data / _check_request / _get_power_distribution / _distribute_power / _set_distributed_power with a fake API client",
         "inverter ids are chosen so that the frozenset iteration order equals the index order; both orders of unequal inverters are enumerated",
     ]
-    stages = (sc["bounds"] + sc["admit"]) if prop == "C17" else sc["dist"]
+    stages = (sc["bounds"] + sc["admit"]) if prop == "C17" else (sc["dist"] + sc["reject"]) if prop == "C02" else sc["dist"]
     _STAGEFILES.clear()
     for name, consts in stages:
         _mc(rep, prop, name, consts, work)
@@ -621,7 +686,7 @@ def replay(prop: str, data: dict) -> int:
         print(json.dumps(data, indent=1)[:4000])
         return 0
     work = scratch(f"{prop}_replay")
-    case = {k: rec[k] for k in ("g", "p", "e", "hp") if k in rec}
+    case = {k: rec[k] for k in ("g", "p", "e", "hp") if k in rec}  # kind "dist", "reject" or "bounds"
     path = work / "cases.ndjson"
     path.write_text(json.dumps(case) + "\n")
     _STAGEFILES[:] = [(path, 1, rec["kind"], "replay")]
